@@ -830,6 +830,7 @@ package kcp
 //@        && (forall o int :: callsat(UDPSession.Close, o) == old(callsat(UDPSession.Close, o))) && calls(newUDPSession) == old(calls(newUDPSession))
 //@        ==> sameheap(KCP, RingBuffer, segmentHeap, fecDecoder, shardHeap, UDPSession, Listener, allelems, allmaps)
 //@            && sends(Listener.chAccepts, l.chAccepts) == old(sends(Listener.chAccepts, l.chAccepts))
+//@            && (closed(l.die) == old(closed(l.die))) && (closed(l.chSocketReadError) == old(closed(l.chSocketReadError)))
 //@   ensures @C11 [at-most-one-session-created] calls(newUDPSession) <= old(calls(newUDPSession)) + 1
 //@   ensures @C11 [one-accept-per-created-session] sends(Listener.chAccepts, l.chAccepts) - old(sends(Listener.chAccepts, l.chAccepts)) == calls(newUDPSession) - old(calls(newUDPSession))
 //
